@@ -56,7 +56,7 @@ CHECKS = {
          "TLC; LD_PRELOAD interposer (process kill via _exit; power loss / fsync out of scope; close() inside libc is not observed); reference texts from an uninterrupted run", "5/C18"),
  "C04": ("model_checking", "TLA+ spec Mpi.tla (ranks with program counters, two collectives per iteration with arrival sets, split from Split.tla): TLC explores all interleavings for P <= 3 and plans incl. N = 0, N < P, remainders (invariants Disjoint, Covers, SamePosition, ReducedIsSerial; deadlock check on; the 'skip second collective' alternative deadlocks); trace validation (Trace_C04) of mpi_plain / mpi_vegas / mpi_multi_channel under a thread-based MPI shim for world sizes 1..33 against the serial run: stream position of every evaluated point, collective signatures, counters, stored generator, sums, stop decisions, returned checkpoints",
          "Which rank evaluates which stream position is decided by Split.tla inside the per-rank trace machines; equality with the serial run is exact where the inputs are exact (integer integrand values, dyadic weights) and 'up to reassociation' (1 unit of 2^-6) otherwise.",
-         "TLC; MPI shim (seeded arrival and reduction orders); real Open MPI is not part of the quick tier", "5/C04"),
+         "TLC; MPI shim (seeded arrival and reduction orders); real Open MPI: np = 2 (quick), np in {1,2,3,5} (thorough)", "5/C04"),
  "C01": ("model_checking", "TLA+ spec Measure.tla: exact midpoint-lattice sums for VEGAS grids (via Refine!Icdf*) and multi-channel maps (piecewise linear channels, densities, weights, selector lattice via Select!Owner) in rational arithmetic; TLC proves lattice sum = integral for the bounded family (MC_Measure); trace validation (Trace_C01) of hep::plain / hep::vegas / hep::multi_channel driven by a scripted midpoint lattice: exact equality for dyadic grids, tolerance-bounded for multi-channel and for grids reached by adaptation",
          "Measure preservation is an exact theorem in the model; the implementation is bound by requiring the same exact values (1, 1/2, the indicator's edge) from lattice iterations on user grids, weight vectors with zeros and minimum weights, common jacobian factors, and adapted states.",
          "TLC; exactness by construction for VEGAS / PLAIN; float-vs-rational comparison within 8-64 units of 2^-20 for multi-channel; 256 eps on adapted grids", "5/C01"),
